@@ -266,9 +266,9 @@ PROPS = {
         trusted_base=COMMON_TB + ["CE/Canon.lean canonText is the reading of 'equivalent stream carrying the same data'"],
     ),
     "C03": dict(
-        claim="the gap between what the validator lets through and what the text grammar can spell, as theorems: for every time value of the three kinds Context.ValidateTime (model in CE/Rules/Machine.lean, run in lock step with the real validator) accepts exactly what the independent grammar-side definition in CE/Rules/Spec.lean calls spellable (time_accepted_iff_spellable: field ranges, UTC offsets, latitude/longitude, area/location names = TZ_AREALOC via area_accepted_iff_spellable over all byte strings); the same for single-line comments; strings survive the escaping layer (C02). "
-              "Harness: CBE documents accepted by the real decoder+rules - encoder output of generated streams and 1-2 random byte substitutions of them that are still accepted (media types, area/location names, time fields and identifiers no encoder would write) - are converted CBE -> CTE -> CBE through the real codecs with rules; accepted CTE texts without custom text (encoder output and lists of generated literal spellings) are converted to CBE; at every stage the Lean canonText equality decides 'same data' (comments dropped towards CBE)",
-        note="partial: the conversion chains are decided by the oracle; the equivalence validator = grammar for media types and multi-line comments is exercised (both definitions run on every C10 case), not yet a theorem. Known finding: a big binary float that is not a float64 value cannot be carried by CBE exactly (C01 bigfloat-inexact). Defects found by this check and repaired: remote references with invalid UTF-8 (ab826f1), unspellable media types / times / area-location names (a4d8583)",
+        claim="the gap between what the validator lets through and what the text grammar can spell, as theorems: for every time value of the three kinds Context.ValidateTime (model in CE/Rules/Machine.lean, run in lock step with the real validator) accepts exactly what the independent grammar-side definition in CE/Rules/Spec.lean calls spellable (time_accepted_iff_spellable: field ranges, UTC offsets, latitude/longitude, area/location names = TZ_AREALOC via area_accepted_iff_spellable over all byte strings); the same for single-line comments (line_comment_accepted_iff_spellable), for multi-line comments of any nesting (block_comment_accepted_iff_spellable: the validator's scan and the grammar's scan are the same computation, by functional induction) and for media types over all byte strings (media_type_accepted_iff_spellable: index-based check = FIRST NEXT* '/' NEXT+, character classes compared on all 128 ASCII values by the kernel); strings survive the escaping layer (C02). "
+              "Harness: CBE documents accepted by the real decoder+rules - encoder output of generated streams, 1-2 random byte substitutions of them that are still accepted (area/location names, time fields and identifiers no encoder would write), media types rewritten with characters from the edges of the grammar's ranges, and a corpus of past failures (zero-value times) - are converted CBE -> CTE -> CBE through the real codecs with rules; accepted CTE texts without custom text (encoder output and lists of generated literal spellings) are converted to CBE; at every stage the Lean canonText equality decides 'same data' (comments dropped towards CBE)",
+        note="partial: the conversion chains are decided by the oracle (the ANTLR reader is not modelled); the four validator = grammar equivalences are theorems, the grammar-side definitions themselves are a reading of CTELexer.g4. Known finding: a big binary float that is not a float64 value cannot be carried by CBE exactly (C01 bigfloat-inexact). Defects found by this check and repaired: remote references with invalid UTF-8 (ab826f1), unspellable media types / times / area-location names (a4d8583), zero-value times decoded as times (559524b)",
         level="proof", n_quick=9000, n_thorough=450000, shards=16,
         lean_modules=["CE.Props.C03", "CE.Props.C02", "CE.Gen.Check"],
         rule="case i mod 3: 0 = CBE encoder output, 1 = mutated CBE document still accepted by decoder+rules, 2 = accepted CTE text (half generated documents, half lists of literal spellings); distinct by document bytes",
